@@ -394,9 +394,16 @@ class WSStream:
             message.get("subprotocol"), build_and_validate_headers(message.get("headers", []))
         )
         self.state = ASGIWebsocketState.CONNECTED
-        await self.send(
-            Response(stream_id=self.stream_id, status_code=status_code, headers=headers)
-        )
+        try:
+            await self.send(
+                Response(stream_id=self.stream_id, status_code=status_code, headers=headers)
+            )
+        except Exception:
+            # The response has been refused (e.g. a header h11 does not
+            # allow), the handshake is still to be answered.
+            self.state = ASGIWebsocketState.HANDSHAKE
+            self.handshake.accepted = False
+            raise
         await self.config.log.access(
             self.scope, {"status": status_code, "headers": []}, time() - self.start_time
         )
